@@ -333,7 +333,7 @@ class Flow:
     that of the end of one pass over the body.
     """
 
-    def __init__(self, fn, track_self=False, max_size=4000):
+    def __init__(self, fn, track_self=False, max_size=4000, body=None):
         self.fn = fn
         self.track_self = track_self
         self.env_at = {}
@@ -341,7 +341,8 @@ class Flow:
         self.stores = []     # (target ast (resolved), value ast (resolved), stmt)
         self.returns = []    # (resolved value or None, stmt)
         self.max_size = max_size
-        self.final_env = self._block(fn.body, {})
+        # ``body``: analyse only this statement list (a suffix of fn.body), names defined before it stay symbolic
+        self.final_env = self._block(fn.body if body is None else body, {})
 
     # -- public
     def resolve(self, expr, at=None):
@@ -807,6 +808,8 @@ def inline_temporaries(expr, stmt, fn, depth=4, only=None):
                 if isinstance(n.ctx, ast.Load) and n.id not in params and (only is None or n.id in only):
                     ds = raw_reaching_def_stmt(n.id, at)
                     if ds is not None:
+                        if isinstance(ds.value, (ast.List, ast.Dict, ast.Set)) and not getattr(ds.value, "elts", getattr(ds.value, "keys", None)):
+                            return n   # an empty mutable container is an accumulator filled later: keep its name
                         return rec(ds.value, ds, d - 1)
                 return n
 
@@ -886,10 +889,11 @@ def find_raising_guard(fn, spec, rename=None, want_loop_iter=None):
                 continue
             for inl in (False, True):
                 own = nnf(inline_temporaries(s.test, s, fn) if inl else s.test, not pol)
-                pcs = [t for t in path_condition(s, fn, inline=inl)]
-                # earlier *raising* siblings may be assumed not to have fired (if they fired the function raised anyway);
-                # earlier *returning* siblings restrict the inputs that reach this guard and must be implied by the spec
-                firing = conj([own] + [p for p in pcs if not _from_raising_exit(p, s, fn, inl)])
+                # firing condition = own test AND the tests of the enclosing branches.  Earlier sibling guards that leave the
+                # function (raise, or the early return of a separate input form) are not part of it: if they fired, this
+                # input was already rejected / handled by its own path.
+                pcs = [nnf(inline_temporaries(t, enclosing_stmt(t) or s, fn) if inl else t, not p_) for t, p_ in guards_of(s)]
+                firing = conj([own] + pcs)
                 if rename:
                     firing = _rename_term(firing, rename)
                 if nnf_implies(spec, firing):
